@@ -319,9 +319,9 @@ func c12xRun(c *c12xCase) (rec vtr.Rec) {
 	}
 	system := testsystem.New()
 	system.Machineprocs = c.Procs
-	system.KeepalivePeriod = 100 * time.Millisecond
-	system.KeepaliveTimeout = 400 * time.Millisecond
-	system.KeepaliveRpcTimeout = 100 * time.Millisecond
+	system.KeepalivePeriod = 200 * time.Millisecond
+	system.KeepaliveTimeout = 2 * time.Second // (generous: on a loaded host a lapsed keepalive kills a healthy machine)
+	system.KeepaliveRpcTimeout = 500 * time.Millisecond
 	cl := system.HTTPClient()
 	deadAddrs := &c12xDead{base: cl.Transport, dead: map[string]bool{}}
 	cl.Transport = deadAddrs
